@@ -424,6 +424,19 @@ static void do_request(int caller, int target, int idform, const char *payload, 
 	jx_sendf(conn[caller], "{%s\"method\":\"%s\",\"params\":{\"path\":\"%s\",\"%s\":%s%s}}", idm, r->is_call ? "call" : "set", r->path, r->is_call ? "args" : "value", payload, timeout_member);
 }
 
+static void sweep_dropped_stalled_peers(void)
+{
+	for (int sl = 0; sl < NSLOT; sl++) {
+		if (conn[sl] >= 0 && stalled[sl] && sim_conn_closed_by_daemon(conn[sl])) {
+			/* an answer for the peer that stopped reading could not be queued: the daemon may drop that peer (it harms only itself) */
+			model_owner_gone(sl);
+			model_caller_gone(sl);
+			conn[sl] = -1;
+			stalled[sl] = false;
+		}
+	}
+}
+
 static void apply(const struct action *a)
 {
 	last_action = a->name;
@@ -507,15 +520,7 @@ static void apply(const struct action *a)
 	}
 	if (!defer_settle) {
 		jx_settle();
-		for (int sl = 0; sl < NSLOT; sl++) {
-			if (conn[sl] >= 0 && stalled[sl] && sim_conn_closed_by_daemon(conn[sl])) {
-				/* an answer for the peer that stopped reading could not be queued: the daemon may drop that peer (it harms only itself) */
-				model_owner_gone(sl);
-				model_caller_gone(sl);
-				conn[sl] = -1;
-				stalled[sl] = false;
-			}
-		}
+		sweep_dropped_stalled_peers();
 		observe();
 	}
 }
@@ -623,6 +628,15 @@ static void run_interleavings(void)
 				}
 			}
 			jx_settle();
+			/* a peer that stopped reading may have been dropped in this batch: as an owner its departure explains shutdown answers; as a
+			 * caller it ends its requests - but only after what was routed for it earlier in the batch has been seen at the owners */
+			for (int sl = 0; sl < NSLOT; sl++) {
+				if (conn[sl] >= 0 && stalled[sl] && sim_conn_closed_by_daemon(conn[sl])) {
+					model_owner_gone(sl);
+				}
+			}
+			observe();
+			sweep_dropped_stalled_peers();
 			observe();
 		} else {
 			apply(&ACTIONS[en[c]]);
